@@ -44,6 +44,12 @@ def declare(ct):
     F("StroquOOL", partition="ref:Partition", iteration="int", h_max="int", p_max="int", curr_depth="int", curr_p="int",
       chosen="list[ref:$N]", time_stamp="int", validation_p="int", candidate="list[ref?:$N]", curr_loc="int", curr_node="ref:$N",
       eval="bool", max_node="ref?:$N", end="bool")
+    # the base learner handed to POO / GPO as a class: an interface with assumed contracts (contracts/poo.py)
+    ct.declare_interface("Learner", {"__init__": ["self", "nu", "rho", "rounds", "domain", "partition"],
+                                     "pull": ["self", "time"], "receive_reward": ["self", "time", "reward"]})
+    F("POO", rounds="int", rhomax="real", numax="real", Dmax="real", domain="list[list[real]]", partition="cls:Partition",
+      algo="cls:Learner", N="int", n="int", phase="int", curr_algo="ref?:Learner", counter="int", goodx="list?[real]",
+      V_algo="list[ref:Learner]", V_reward="list[real:score]", Times="list[int]", algo_counter="int", late=("algo_counter",))
     # ---- synthetic objectives
     for c in ("Garland", "DoubleSine", "DifficultFunc", "Ackley", "Ackley_Normalized", "Himmelblau", "Himmelblau_Normalized",
               "Rastrigin", "Rastrigin_Normalized", "Cexample", "Perturbed_Garland", "Perturbed_DoubleSine"):
